@@ -1005,9 +1005,66 @@ func (j *judge) checkRoundTrip(a aApp, app *sysl.Application) {
 			continue
 		}
 		switch td.Kind {
-		case "union", "map":
-			// not judged: a union is exported without its alternatives (reported by the completeness clause), a
-			// json_map_key type as an object schema, which no importer turns back into a map
+		case "union":
+			// third pass: the union must come back as a union of the same alternatives.  Listed: the exporter writes `{}`
+			// (type-kind:union-as-empty-schema), which the importer reads as `!alias T [~unmapped_openapi]: string`
+			if oo := t.GetOneOf(); oo != nil {
+				var got []string
+				for _, alt := range oo.GetType() {
+					got = append(got, strings.Join(alt.GetTypeRef().GetRef().GetPath(), "."))
+				}
+				want := append([]string{}, td.Alts...)
+				sort.Strings(got)
+				sort.Strings(want)
+				if !reflect.DeepEqual(got, want) {
+					j.fail("roundtrip:union-alternatives", "union %s of %v comes back as a union of %v", td.Name, want, got)
+				}
+			} else if hasPattern(t.GetAttrs(), "unmapped_openapi") && t.GetPrimitive() == sysl.Type_STRING {
+				j.fail("roundtrip:union-becomes-unmapped-alias", "union %s of %v comes back as `!alias %s [~unmapped_openapi]: string`", td.Name, td.Alts, td.Name)
+			} else {
+				j.fail("roundtrip:type-kind:union", "after re-import union %s is %T", td.Name, t.Type)
+			}
+		case "map":
+			// third pass: a json_map_key type must come back as a type with the same fields (same class and array-ness) that still
+			// names its key field.  Listed: the attribute is not exported at all (json-map-key-lost), and - the document carries no
+			// `required` for such a type - every field comes back optional (map-field-becomes-optional)
+			tu := t.GetTuple()
+			if tu == nil {
+				j.fail("roundtrip:type-kind:map", "after re-import the json_map_key type %s is %T, not a tuple", td.Name, t.Type)
+				continue
+			}
+			if got := t.GetAttrs()["json_map_key"].GetS(); got == "" {
+				j.fail("roundtrip:json-map-key-lost", "%s [json_map_key=%q] comes back without the attribute", td.Name, td.MapKey)
+			} else if got != td.MapKey {
+				j.fail("roundtrip:json-map-key-changed", "%s [json_map_key=%q] comes back with json_map_key=%q", td.Name, td.MapKey, got)
+			}
+			for _, f := range td.Fields {
+				ft, ok := tu.GetAttrDefs()[f.Name]
+				if !ok {
+					j.fail("roundtrip:missing-field:map:"+tyDesc(f.T), "after re-import %s.%s is gone", td.Name, f.Name)
+					continue
+				}
+				if f.T.Kind == "inline" || f.T.Kind == "ref" && strings.Contains(f.T.Ref, ".") ||
+					f.T.Elem != nil && f.T.Elem.Kind == "ref" && strings.Contains(f.T.Elem.Ref, ".") {
+					continue
+				}
+				want, got := rtOfAbstract(f.T), rtOfSysl(ft)
+				sameButOpt := got.Opt && !want.Opt
+				if sameButOpt {
+					got.Opt = false
+				}
+				switch {
+				case f.T.Kind == "set" && got.Seq && got.Class == want.Class && got.Opt == want.Opt:
+					j.fail("roundtrip:set-becomes-sequence", "%s.%s <: %s comes back as %s", td.Name, f.Name, typeText(f.T), got)
+				case want != got:
+					j.fail("roundtrip:field:map:"+tyDesc(f.T), "%s.%s <: %s comes back as %s", td.Name, f.Name, typeText(f.T), got)
+				case sameButOpt:
+					j.fail("roundtrip:map-field-becomes-optional", "%s.%s <: %s of the json_map_key type comes back optional", td.Name, f.Name, typeText(f.T))
+				}
+			}
+			if len(tu.GetAttrDefs()) != len(td.Fields) {
+				j.fail("roundtrip:extra-field", "after re-import type %s has %d fields instead of %d", td.Name, len(tu.GetAttrDefs()), len(td.Fields))
+			}
 		case "tuple", "table":
 			tu := t.GetTuple()
 			if tu == nil {
